@@ -28,7 +28,7 @@ def main(argv):
         return 2
     except Exception:     # noqa
         import traceback
-        traceback.print_exc()
+        traceback.print_exc(file=sys.stdout)
         print('HARNESS-ERROR %s: unexpected exception in the harness' % a.prop)
         return 2
     return rc
